@@ -216,6 +216,24 @@ def plan(tier, seed, args):
                 wp = W.draw_sdmx_params(r)
                 wp.update({"basis": r.choice(["ano@3s2p", "ano@2s2p", "ano@2s1p", "cc-pvdz", "sto-3g", "6-31g"]), "cutoff": r.choice([1e-8, 1e-5, 1e-3]), "spread": r.choice([4.0, 8.0, 16.0]), "order": r.choice(["radial", "radial_rev", "blockwise"]), "ngrids": r.randint(120, 520)})
                 cases.append({"workload": "sdmx", "wparams": wp, "scheds": [draw_sched(r, variant) for _ in range(6)], "group": variant})
+    # CiderPress call-backs inside PySCF's own regions (pre-loaded child, see omp_child.py)
+    if args.cases is None:
+        for wl, n_sim, n_tr in (("pyscf_flapl", 4, 8), ("pyscf_slow_sdmx", 3, 5)) if tier == "quick" else (("pyscf_flapl", 60, 120), ("pyscf_slow_sdmx", 40, 80)):
+            for variant, n in (("sim", n_sim), ("simtrace", n_tr)):
+                for i in range(n):
+                    r = Rng(derive(seed, PROP, wl, variant, i))
+                    wp = W.WORKLOADS[wl][0](r)
+                    scheds = []
+                    for _ in range(5):
+                        s_ = draw_sched(r, variant)
+                        for k_ in ("team_phase", "nested", "team_limit"):
+                            s_.pop(k_, None)
+                        if variant == "simtrace":
+                            s_["window_pct"] = 100  # the call-backs are not region functions: no window
+                            s_["nthreads"] = r.choice([2, 3, 4, 5])
+                            s_["preempt_mean"] = r.choice([3, 10, 30, 100])
+                        scheds.append(s_)
+                    cases.append({"workload": wl, "wparams": wp, "scheds": scheds, "group": variant, "via_child": True})
     # team-size sweeps: routines that partition their work by hand from the team size give a
     # result that is a function of (problem size, team size) alone; every team size from 2 to
     # 24 on a handful of seeded sizes costs little in the call-level build and removes the
@@ -454,9 +472,50 @@ def minimise_trace_case(spec):
 _worker_log = []
 
 
+def _run_in_preloaded_child(spec):
+    """cases whose parallel regions are PySCF's: a fresh interpreter with the simulated runtime
+    pre-loaded (see omp_child.py)"""
+    import base64
+    import pickle
+    import subprocess
+
+    from cidersim import build
+
+    d = build.build(spec["group"])
+    env = dict(os.environ)
+    env["LD_PRELOAD"] = os.path.join(d, "libsimgomp.so")
+    env["PYTHONPATH"] = os.path.dirname(os.path.dirname(os.path.dirname(os.path.abspath(__file__))))
+    env["PYTHONHASHSEED"] = "0"
+    env.pop("OMP_NUM_THREADS", None)
+    try:
+        p = subprocess.run([sys.executable, "-m", "cidersim.engines.omp_child"], input=json.dumps(spec).encode(), capture_output=True, env=env, timeout=CASE_TIMEOUT)
+    except subprocess.TimeoutExpired:
+        p = None
+    rp = {"property": PROP, "engine": "simgomp", "case": {k: spec[k] for k in ("workload", "wparams", "scheds", "group", "via_child") if k in spec}}
+    if p is None or p.returncode != 0:
+        if not spec["scheds"]:
+            return {"harness_error": "reference-only child failed for %s: %s" % (spec["workload"], (p.stderr.decode()[-300:] if p is not None else "timeout"))}
+        # did the one-thread reference alone survive?  (as on_crash does for in-process cases)
+        r0 = _run_in_preloaded_child(dict(spec, scheds=[]))
+        if "harness_error" in r0:
+            return {"harness_error": "pre-loaded child failed also without schedules for %s: %s" % (spec["workload"], r0["harness_error"][-300:])}
+        key = "schedule:%s:*:crash" % spec["workload"]
+        rp["violation"] = {"key": key}
+        return {"digest": "", "nontrivial": True, "violations": [{"key": key, "detail": "child process died or hung (rc %s) under one of scheds=%s while the one-thread run completes: %s" % (p.returncode if p is not None else "timeout", json.dumps(spec["scheds"])[:300], (p.stderr.decode()[-200:] if p is not None else "")), "replay": rp}], "stats": {}, "sample": None}
+    line = [l for l in p.stdout.decode().splitlines() if l.startswith("RESULT ")]
+    if not line:
+        return {"harness_error": "pre-loaded child printed no result for %s: %s" % (spec["workload"], p.stderr.decode()[-300:])}
+    res = pickle.loads(base64.b64decode(line[-1][7:]))
+    if isinstance(res, dict) and "stats" in res:
+        res["stats"]["cases_run_with_pyscf_regions_simulated"] = 1
+    return res
+
+
 def run_case(spec):
     if spec.get("_mintrace"):
         return minimise_trace_case(spec)
+    if spec.get("via_child") and not os.environ.get("CIDERSIM_OMP_CHILD"):
+        return _run_in_preloaded_child(spec)
     res = _run_case(spec)
     if not spec.get("replay_trace") and len(_worker_log) < 64:
         _worker_log.append({k: spec[k] for k in ("workload", "wparams", "scheds", "group", "pre_runs") if k in spec})
@@ -552,6 +611,8 @@ def _run_case(spec):
         rp = {"property": PROP, "engine": "simgomp", "case": {"workload": wl, "wparams": wp, "scheds": [sched], "group": spec["group"]}}
         if spec.get("pre_runs"):
             rp["case"]["pre_runs"] = spec["pre_runs"]
+        if spec.get("via_child"):
+            rp["case"]["via_child"] = True
         if _worker_log:
             # C-level state that survives calls would make this run depend on what the worker
             # executed before; the replay falls back to re-running these first
